@@ -33,6 +33,13 @@ Double == UNION {
             {[n |-> n, variant |-> v, zip |-> z, entropy |-> "random", bad |-> {<<p1, k1>>, <<p2, k2>>}] :
                v \in {"pure", "ph"}, z \in BOOLEAN, p1 \in Positions(n), p2 \in Positions(n), k1 \in PairKinds, k2 \in PairKinds} : n \in {4, 5, 65, 68, 130}}
 
+\* runs of adjacent entries that share their key, across chunk boundaries: the same small-order key (refused in
+\* default mode, admissible under ZIP-215) and the same honest signer
+Runs(n) == {r \in {{62, 63, 64, 65}, {63, 64}, {0, 1}, {n - 2, n - 1}, {127, 128, 129}, {60, 61, 62, 63}} : \A p \in r : p >= 0 /\ p < n}
+SameKeyRuns == UNION {
+            {[n |-> n, variant |-> v, zip |-> z, entropy |-> "random", bad |-> {<<p, k>> : p \in r}] :
+               v \in {"pure", "ctx"}, z \in BOOLEAN, r \in Runs(n), k \in {"smallA0", "sameSigner"}} : n \in {5, 65, 68, 130, 131}}
+
 \* entropy sources that deliver their bytes in small pieces (legal io.Readers): io.ReadFull must assemble them
 Chunky == UNION {
             {[n |-> n, variant |-> "pure", zip |-> z, entropy |-> e, bad |-> {<<p, k>>}] :
@@ -48,7 +55,7 @@ Errors == {[n |-> n, variant |-> "pure", zip |-> FALSE, entropy |-> e, bad |-> {
           \cup {[n |-> n, variant |-> v, zip |-> FALSE, entropy |-> "random", bad |-> {}] :
              n \in {0, 1, 3, 4, 5, 65}, v \in {"badhash", "longctx", "countKeys", "countMsgs", "countSigs", "ctx255", "ctx256"}}
 
-Cases == Single \cup Double \cup Chunky \cup AllValid \cup Errors
+Cases == Single \cup Double \cup Chunky \cup SameKeyRuns \cup AllValid \cup Errors
 
 ToRec(c) == [n |-> c.n, variant |-> c.variant, zip |-> c.zip, entropy |-> c.entropy,
              bad |-> SetToSeq({[pos |-> b[1], kind |-> b[2]] : b \in c.bad})]
